@@ -121,8 +121,8 @@ def to_model(case, obs):
         elif name in ("crash", "bounce"):
             hs = sel_hosts(ev[1], nreg)
             evs.append("%s %s" % ("Crash" if name == "crash" else "Bounce", coq_nat_list(hs)))
-        elif name == "probe":
-            evs.append("Probe")
+        elif name in ("probe", "wall_sleep"):
+            evs.append("Probe")          # wall_sleep: real time only, nothing happens in the model
         else:
             raise ValueError(name)
         probes.append(name)
